@@ -16,6 +16,12 @@ type stKind struct {
 	B string
 }
 
+// s3Kind is a pointer-free struct of 12 bytes (not a multiple of the word size): zeroed by internal/zero's generic path.
+// Values are partially zero (gob omits zero fields, so a decoder that reuses memory must have cleared every byte).
+type s3Kind struct {
+	A, B, C int32
+}
+
 // ccKind has a custom frame codec (registered below): Encode/Decode of the column go through
 // frame.Ops rather than gob's value encoding.
 type ccKind struct{ V int }
@@ -76,6 +82,7 @@ var kindTypes = map[string]reflect.Type{
 	"pt":    reflect.TypeOf((*int64)(nil)),
 	"sl":    reflect.TypeOf([]int32(nil)),
 	"arr":   reflect.TypeOf([3]int16{}),
+	"s3":    reflect.TypeOf(s3Kind{}),
 	"mp":    reflect.TypeOf(map[string]int(nil)),
 }
 
@@ -169,6 +176,20 @@ func fromInt(k string, v int) reflect.Value {
 		return reflect.ValueOf([]int32{int32(v), int32(v)})
 	case "arr":
 		return reflect.ValueOf([3]int16{int16(v), int16(v), int16(v)})
+	case "s3":
+		// v = 0: zero; otherwise the fields hold v except one (chosen by v mod 3) that is left zero
+		s := s3Kind{int32(v), int32(v), int32(v)}
+		if v != 0 {
+			switch v % 3 {
+			case 0:
+				s.C = 0
+			case 1:
+				s.A = 0
+			case 2:
+				s.B = 0
+			}
+		}
+		return reflect.ValueOf(s)
 	case "cc":
 		return reflect.ValueOf(ccKind{v})
 	case "mp":
@@ -280,6 +301,19 @@ func toInt(k string, v reflect.Value) int {
 			return -999
 		}
 		return int(a[0])
+	case "s3":
+		s := v.Interface().(s3Kind)
+		if s == (s3Kind{}) {
+			return 0
+		}
+		x := int(s.A)
+		if x == 0 {
+			x = int(s.B)
+		}
+		if x == 0 || fromInt("s3", x).Interface().(s3Kind) != s {
+			return -999
+		}
+		return x
 	}
 	panic("unknown kind " + k)
 }
